@@ -235,6 +235,67 @@ pub fn check_group(bytes: &[u8], tag: u8) -> Result<(), Bad> {
     Ok(())
 }
 
+/// f = 5: a request made through the public API of a live table: `try_reserve(additional)` (and `reserve`
+/// for small amounts) on a HashTable / HashSet holding `len` elements of a given element type. The
+/// requested capacity is `len + additional`; the statement allows "reports overflow" or a table whose
+/// usable capacity is at least the request, nothing else (no panic, no wrapped sum).
+pub fn check_request(len: usize, additional: usize, etype: u64) -> Result<(), Bad> {
+    fn go<T: Default>(len: usize, additional: usize, what: &str) -> Result<(), Bad> {
+        use std::panic::{catch_unwind, AssertUnwindSafe};
+        let total = len as u128 + additional as u128;
+        let mk = || {
+            let mut t: hb::HashTable<(u32, T)> = hb::HashTable::new();
+            for i in 0..len as u32 {
+                t.insert_unique(crate::plan::splitmix64(i as u64), (i, T::default()), |e| crate::plan::splitmix64(e.0 as u64));
+            }
+            t
+        };
+        let mut t = mk();
+        let r = catch_unwind(AssertUnwindSafe(|| t.try_reserve(additional, |e| crate::plan::splitmix64(e.0 as u64))));
+        match r {
+            Err(_) => {
+                let msg = crate::world::last_panic_message().unwrap_or_default();
+                crate::world::clear_panic_messages();
+                bad!("C17", "request-arithmetic-panicked", "HashTable<(u32, {what})> of {len}: try_reserve({additional}) panicked: {msg}");
+            }
+            Ok(Ok(())) => {
+                if (t.capacity() as u128) < total {
+                    bad!("C17", "usable-capacity-below-request", "HashTable<(u32, {what})> of {len}: try_reserve({additional}) = Ok but capacity() = {} < {total}", t.capacity());
+                }
+            }
+            Ok(Err(_)) => {
+                if total <= 1 << 16 {
+                    bad!("C12", "spurious-overflow", "HashTable<(u32, {what})> of {len}: try_reserve({additional}) failed for a clearly representable request");
+                }
+            }
+        }
+        if t.len() != len {
+            bad!("C17", "request-changed-len", "try_reserve({additional}) changed len from {len} to {}", t.len());
+        }
+        drop(t);
+        if total <= 1 << 21 {
+            // the infallible twin, through HashSet (same table code, different wrapper)
+            let mut s: hb::HashSet<u32> = (0..len as u32).collect();
+            let r = catch_unwind(AssertUnwindSafe(|| s.reserve(additional)));
+            if r.is_err() {
+                let msg = crate::world::last_panic_message().unwrap_or_default();
+                crate::world::clear_panic_messages();
+                bad!("C17", "request-arithmetic-panicked", "HashSet<u32> of {len}: reserve({additional}) panicked: {msg}");
+            }
+            if (s.capacity() as u128) < total {
+                bad!("C17", "usable-capacity-below-request", "HashSet<u32> of {len}: reserve({additional}) left capacity() = {} < {total}", s.capacity());
+            }
+        }
+        Ok(())
+    }
+    match etype % 4 {
+        0 => go::<()>(len, additional, "()"),
+        1 => go::<u8>(len, additional, "u8"),
+        2 => go::<u64>(len, additional, "u64"),
+        _ => go::<[u64; 24]>(len, additional, "[u64; 24]"),
+    }
+}
+
 /// Replay entry: cases of kind "arith" (C17) and "prim" (C18 primitives).
 pub fn run_case(case: &Case) -> Outcome {
     let mut out = Outcome::default();
@@ -251,6 +312,7 @@ pub fn run_case(case: &Case) -> Outcome {
                 }
             }
             3 => check_probe(case.h("k") as u32, case.h("hash")).map(|_| ()),
+            5 => check_request(case.h("len") as usize, case.h("additional") as usize, case.h("etype")),
             _ => check_typed_layouts().map(|_| ()),
         },
         _ => {
